@@ -20,7 +20,7 @@ LEVEL_NOTE = ("'No effect other than on the global random state' is observed thr
 PLAN = {"quick": dict(shards=16, budget=100), "thorough": dict(shards=16, budget=300)}
 EXHAUSTIVE = ["24 permutations x 15 live-arc patterns x every digit"]
 RULE = ("create_random_shuffles(k, seed): shape (4^k, 4), every row a permutation of 0..3, equal tables for equal seeds whatever "
-        "the RNG did before, unchanged module globals, no audit events. Induced map at a vertex with live-arc pattern P under a "
+        "the RNG did before, unchanged module globals, unchanged interpreter-wide state (stdlib random generator, cwd, environment, sys.path, limits, numpy error / print settings), no audit events. Induced map at a vertex with live-arc pattern P under a "
         "constant table row p: the first nucleotide encode emits for digit d is the live arc whose table entry is d-th smallest "
         "(a bijection digits -> live arcs), decode inverts it, and decode accepts exactly the same strings (all strings of length "
         "<= 3) with and without the table. Non-trivial: |P| >= 2 and p is not the identity, or k >= 2 for tables; distinct = hash."
@@ -68,8 +68,13 @@ def check_table(ctx, case):
                 ctx.fail("same-seed-different-table", "create_random_shuffles(%d, %s(%d)) %s" % (
                     k, typ.__name__, seed, alt.describe() if alt.kind != "ok" else "differs from the table of the plain int seed"))
         ctx.cls("seed passed as a numpy integer")
+    a0 = guards.ambient_digest()
     with guards.audited() as ev:
         out = monitored(dsw.create_random_shuffles, 200 * n + 5000, k, seed)
+    if guards.ambient_digest() != a0:
+        ctx.fail("interpreter-state-changed", "create_random_shuffles(%d, %r) changed interpreter-wide state other than numpy's global "
+                 "random state (stdlib random / cwd / environment / sys.path / limits / numpy settings)" % (k, seed))
+    ctx.mon("ambient-state windows observed")
     if out.kind != "ok":
         ctx.fail("table-" + out.kind, "create_random_shuffles(%d, %r) %s" % (k, seed, out.describe()))
         return ctx.done("table", case, k >= 2)
